@@ -229,12 +229,12 @@ func hC05(prefixIdx, nops, vlen int, crash bool, layout int, fullDistinct bool, 
 }
 
 // case = prefix (4) x layout (3) x first writer operation (6) = 72 cases
-func H_C05_q()     { c := vCase(); hC05(c%4, 1, 2, false, (c/4)%3, true, false) }
-func H_C05_r()     { c := vCase(); hC05(c%4, 1, 2, false, (c/4)%3, true, true) }
-func H_C05_t()     { c := vCase(); hC05(c%4, 2, 2, false, (c/4)%3, true, false) }
+func H_C05_q() { c := vCase(); hC05(c%4, 1, 2, false, (c/4)%3, true, false) }
+func H_C05_r() { c := vCase(); hC05(c%4, 1, 2, false, (c/4)%3, true, true) }
+func H_C05_t() { c := vCase(); hC05(c%4, 2, 2, false, (c/4)%3, true, false) }
 
 // one writer operation, full 32-bit hash collisions between keys allowed
-func H_C05_fc() { c := vCase(); hC05(c%4, 1, 2, false, (c/4)%3, false, false) }
+func H_C05_fc()    { c := vCase(); hC05(c%4, 1, 2, false, (c/4)%3, false, false) }
 func H_C05_crash() { c := vCase(); hC05(c%4, 1, 2, true, (c/4)%3, true, false) }
 
 // hC05seqcrash: no concurrency; the process dies at every mutating file-system
@@ -337,4 +337,55 @@ func H_C05_pick() {
 		}
 	}
 	vCover("C05.pick.done")
+}
+
+// H_C05_empty: the record of the empty key with an empty value (an all-zero
+// 6-byte record header) sits in a segment that compaction rewrites, first or
+// second in that segment (case): it and the records after it survive the
+// compaction and a recovery afterwards.
+func H_C05_empty() {
+	vlen := 2
+	rec := 10 + 8 + vlen
+	dir := "c05e"
+	db, err := Open(dir, smallOpts(fs.Mem, 2, rec))
+	vAssert(err == nil, "C05e.open")
+	if err != nil {
+		return
+	}
+	empty := []byte{}
+	k1 := vKey(1, 8)
+	v1 := vBytes("val", vlen)
+	if vCase()%2 == 0 {
+		vAssert(db.Put(empty, empty) == nil, "C05e.put")
+		vAssert(db.Put(k1, v1) == nil, "C05e.put")
+	} else {
+		vAssert(db.Put(k1, v1) == nil, "C05e.put")
+		vAssert(db.Put(empty, empty) == nil, "C05e.put")
+	}
+	v2 := vBytes("val", vlen)
+	vAssert(db.Put(k1, v2) == nil, "C05e.put") // the first segment now holds a dead record
+	check := func(d *DB, tag string) {
+		g, err := d.Get(empty)
+		vAssert(err == nil && g != nil && len(g) == 0, tag+".empty-key-holds-empty-value")
+		h, err := d.Has(empty)
+		vAssert(err == nil && h, tag+".has-empty-key")
+		g1, err := d.Get(k1)
+		vAssert(err == nil && g1 != nil && vEqBytes(g1, v2), tag+".other-key")
+		vAssert(d.Count() == 2, tag+".count")
+	}
+	check(db, "C05e.before")
+	cr, err := db.Compact()
+	vAssert(err == nil, "C05e.compact.err")
+	if cr.CompactedSegments > 0 {
+		vCover("C05e.compacted")
+	}
+	check(db, "C05e.after-compaction")
+	fs.VerifDropHandles()
+	db2, err := Open(dir, smallOpts(fs.Mem, 2, rec))
+	vAssert(err == nil, "C05e.recovering-open-succeeds")
+	if err != nil {
+		return
+	}
+	check(db2, "C05e.recovered")
+	vCover("C05e.done")
 }
